@@ -1,5 +1,6 @@
 import BeffVerif.Props.C16
 import BeffVerif.Props.C16Order
+import BeffVerif.Props.C16Names
 open BeffVerif.C16
 #print axioms store_keeps
 #print axioms store_defines
@@ -13,3 +14,9 @@ open BeffVerif.C16
 #print axioms BeffVerif.C16O.good_runCalls
 #print axioms BeffVerif.C16O.export_order_independent
 #print axioms BeffVerif.C16O.functional_of_no_union
+#print axioms BeffVerif.C16N.visit
+#print axioms BeffVerif.C16N.names_sound
+#print axioms BeffVerif.C16N.names_complete
+#print axioms BeffVerif.C16N.names_order_independent
+#print axioms BeffVerif.C16N.no_mark_left
+#print axioms BeffVerif.C16N.functional'_of_no_union
